@@ -5,6 +5,7 @@ use crate::pool;
 use crate::props::svgcheck::{SvgModel, FRAMES};
 use crate::report::{Collector, Ctx};
 use crate::subject::{self, Opts, Outcome};
+use fast_qr::convert::Builder;
 use fast_qr::QRCode;
 use serde_json::{json, Value};
 
@@ -82,6 +83,25 @@ pub fn check_case(c: &FrameCase, q: &QRCode) -> (Vec<(String, String)>, Option<G
         Err(e) => return (vec![("frame-elements".into(), e)], None),
     };
     let _ = FRAMES;
+    // the same final options reached in the opposite setter order, and on a builder that has already rendered
+    // this symbol with another margin: the document must be the same (the frame is a function of the final options)
+    match subject::guarded(|| {
+        let rev = model.to_builder_rev().to_str(q);
+        let mut used = SvgModel { margin: c.margin + 3, ..model.clone() }.to_builder();
+        let _ = used.to_str(q);
+        used.margin(c.margin);
+        (rev, used.to_str(q))
+    }) {
+        Ok((rev, used)) => {
+            if rev != doc {
+                out.push(("frame-depends-on-setter-order".into(), "the document differs when the same final options are set in the opposite order".to_string()));
+            }
+            if used != doc {
+                out.push(("frame-differs-on-reused-builder".into(), "the document differs on a builder that rendered the same symbol with another margin before".to_string()));
+            }
+        }
+        Err(m) => out.push(("panic".into(), format!("to_str panicked (reverse setter order / reused builder): {}", m))),
+    }
     let m = c.margin as f64;
     let nn = n as f64;
     if (g.fside - g.fh).abs() > 1e-9 {
